@@ -70,3 +70,88 @@ Example C16_example :
     [CStr [48;48;53]%N; CStr [48;48;53]%N; CStr [48;48;51]%N; CStr [48;48;49]%N;
      CStr [48;48;51]%N; CRaise].
 Proof. vm_compute. split; reflexivity. Qed.
+
+(* ---- the whole program (added once the component models were composed: Whole/Main.v [tempren_main]) ---- *)
+From Tempren Require Import Py.PathLib FS.Model Pipe.Pipeline Pipe.FrontCompile Tpl.Alias.
+From Tempren Require Import Whole.Library Whole.Render Whole.Gather Whole.Main Whole.CountWhole Whole.Examples.
+
+(* When the command line is accepted (argparse, a gatherer, the template and the sort option), the program is the
+   pipeline run on [whole_plan]: the files gathered from the tree, in processing order, each with what the
+   compiled template rendered for it. *)
+Theorem C16_whole_program_runs_its_plan : forall upper lower R o text b dirs s,
+  args_ok s text dirs = true -> no_gatherers o s dirs = false ->
+  compile R text = inl b ->
+  wants_dirs (o_mode o) && o_sort_name o = false ->
+  (o_sort_name o = true -> compiles R t_sort_name = true) ->
+  tempren_main upper lower R o text dirs s =
+  run (cfg_of_options o) (whole_plan upper lower b o dirs s) (o_cwd o) s.
+Proof. exact tempren_main_is_run. Qed.
+Print Assumptions C16_whole_program_runs_its_plan.
+
+(* A name template that is one Count tag with ANY accepted arguments a (keyword or positional spelling; c = the
+   configuration they denote), per-directory counters: in the plan of EVERY tree, input path list, mode, -r, -ih,
+   sort option and listing order, the i-th processed file f is rendered start + k*step - printed in decimal, or
+   zero-filled to the width, or the ValueError of a negative value - where k is the number of files OF THE SAME
+   DIRECTORY (file.absolute_path.parent) processed before it. *)
+Theorem C16_whole_count_numbers : forall upper lower o a c dirs s i f r,
+  count_cfg_of a = Some c -> cc_common c = false ->
+  nth_error (whole_plan upper lower [BTag fid_Count a tt false []] o dirs s) i = Some (f, r) ->
+  let files := processing_order o s dirs in
+  let k := occ (file_dirkey f) (firstn i (map file_dirkey files)) in
+  nth_error files i = Some f /\
+  r = rendered_of_count (render_count (cc_width c) (cc_start c + Z.of_nat k * cc_step c)).
+Proof. exact count_plan_per_directory. Qed.
+Print Assumptions C16_whole_count_numbers.
+
+(* common=True: one counter for the whole run *)
+Theorem C16_whole_count_numbers_common : forall upper lower o a c dirs s i f r,
+  count_cfg_of a = Some c -> cc_common c = true ->
+  nth_error (whole_plan upper lower [BTag fid_Count a tt false []] o dirs s) i = Some (f, r) ->
+  nth_error (processing_order o s dirs) i = Some f /\
+  r = rendered_of_count (render_count (cc_width c) (cc_start c + Z.of_nat i * cc_step c)).
+Proof. exact count_plan_common. Qed.
+Print Assumptions C16_whole_count_numbers_common.
+
+(* the text %Count() compiles to that tag, and numbers the files of each directory 0, 1, 2, ... *)
+Theorem C16_whole_count_text :
+  compile core_reg t_count_plain = inl [BTag fid_Count CountWhole.no_targs tt false []] /\
+  t_count_plain = [37; 67; 111; 117; 110; 116; 40; 41].
+Proof. exact count_plain_text. Qed.
+Print Assumptions C16_whole_count_text.
+
+Theorem C16_whole_count_plain : forall upper lower o dirs s i f r,
+  nth_error (whole_plan upper lower [BTag fid_Count CountWhole.no_targs tt false []] o dirs s) i = Some (f, r) ->
+  let files := processing_order o s dirs in
+  let k := occ (file_dirkey f) (firstn i (map file_dirkey files)) in
+  nth_error files i = Some f /\ r = RText (decimal_Z (Z.of_nat k)).
+Proof. exact count_plain_numbers. Qed.
+Print Assumptions C16_whole_count_plain.
+
+(* what the pipeline receives for a counter outcome *)
+Theorem C16_whole_rendered_of_count : forall o,
+  rendered_of_count o = match o with CInt v => RText (decimal_Z v) | CStr t => RText t | CRaise => RRaise ExOther end.
+Proof. exact rendered_of_count_spec. Qed.
+Print Assumptions C16_whole_rendered_of_count.
+
+(* %Count(start=5,step=-2,width=3) on the example tree, -r, sorted by name: in/a.t 005, in/b.t 003, in/s/c 005,
+   in/s/d.t 003; the same with the listing reversed, hidden files included and no sorter: the numbers follow the
+   processing order (in/ has three files: 005, 003, 001); with start=1 the second file of a directory gets -1: the
+   ValueError ends the run with status 126 *)
+Example C16_whole_example :
+  map snd (match compile core_reg t_count_down with
+           | inl b => whole_plan ascii_upper_str ascii_lower_str b (ex_options MName true true) ex_dirs ex_tree
+           | inr _ => [] end)
+  = [RText [48; 48; 53]; RText [48; 48; 51]; RText [48; 48; 53]; RText [48; 48; 51]]%N /\
+  map (fun e => (pp_parts (pf_rel (fst e)), snd e))
+      (match compile core_reg t_count_down with
+       | inl b => whole_plan ascii_upper_str ascii_lower_str b (ex_options_rev MName true false) ex_dirs ex_tree
+       | inr _ => [] end)
+  = [([[115]; [100; 46; 116]], RText [48; 48; 53]); ([[115]; [99]], RText [48; 48; 51]);
+     ([[46; 104]], RText [48; 48; 53]); ([[97; 46; 116]], RText [48; 48; 51]); ([[98; 46; 116]], RText [48; 48; 49])]%N /\
+  r_status (ex_main (ex_options MName true true) t_count_down ex_dirs ex_tree) = 0%Z /\
+  r_status (ex_main (ex_options_rev MName true false) t_count_down ex_dirs ex_tree) = 0%Z /\
+  (* %Count(start=1,step=-2) *)
+  r_status (ex_main (ex_options MName true true)
+              [37; 67; 111; 117; 110; 116; 40; 115; 116; 97; 114; 116; 61; 49; 44; 115; 116; 101; 112; 61; 45; 50; 41]%N
+              ex_dirs ex_tree) = 126%Z.
+Proof. vm_compute. repeat split; reflexivity. Qed.
